@@ -9,7 +9,7 @@ import os
 import subprocess
 import time
 
-from .common import HARNESS, REPO, HarnessCrash, MachineryError, log
+from .common import HARNESS, REPO, HarnessCrash, MachineryError, log, run_group
 
 _GO = None
 
@@ -76,8 +76,7 @@ def go_test(ctx, pkg, run, env=None, timeout=900, tags="verif", race=False, para
     e.setdefault("VERIF_TIER", ctx.tier)
     t0 = time.time()
     try:
-        p = subprocess.run(cmd, cwd=REPO, env=e, stdout=subprocess.PIPE, stderr=subprocess.STDOUT,
-                           timeout=timeout + 120, text=True, errors="replace")
+        p = run_group(cmd, timeout + 120, cwd=REPO, env=e)
     except subprocess.TimeoutExpired:
         raise MachineryError("go test timeout: %s %s" % (pkg, run))
     log("go test %s -run %s: rc=%d %.1fs" % (pkg, run, p.returncode, time.time() - t0))
